@@ -31,10 +31,11 @@ type queryRequest struct {
 }
 
 type queryEvent struct {
-	r   resource
-	sub *nats.Subscription
-	ch  chan *nats.Msg
-	cb  func(r QueryRequest)
+	r    resource
+	sub  *nats.Subscription
+	ch   chan *nats.Msg
+	done chan struct{} // Closed when the query event has expired
+	cb   func(r QueryRequest)
 }
 
 // Model sends a model response for the query request.
@@ -131,13 +132,37 @@ func (qr *queryRequest) Timeout(d time.Duration) {
 // startQueryListener listens for query requests and passes them on to a worker.
 func (qe *queryEvent) startQueryListener() {
 	defer verifPoint("qlistener.exit", qe.r.rname)
-	for m := range qe.ch {
-		m := m
-		verifPoint("qlistener.msg", m)
-		qe.r.s.runWith(qe.r.Group(), func() {
-			qe.handleQueryRequest(m)
-		})
+	for {
+		select {
+		case m := <-qe.ch:
+			qe.passOn(m)
+		case <-qe.done:
+			// The query event has expired. Pass on the requests already
+			// received, and then queue the final call with nil, so that it
+			// always comes last, before letting the listener goroutine end.
+			for {
+				select {
+				case m := <-qe.ch:
+					qe.passOn(m)
+					continue
+				default:
+				}
+				break
+			}
+			qe.r.s.runWith(qe.r.Group(), func() {
+				qe.cb(nil)
+			})
+			return
+		}
 	}
+}
+
+// passOn passes a query request on to a worker.
+func (qe *queryEvent) passOn(m *nats.Msg) {
+	verifPoint("qlistener.msg", m)
+	qe.r.s.runWith(qe.r.Group(), func() {
+		qe.handleQueryRequest(m)
+	})
 }
 
 // handleQueryRequest is called by the query listener on incoming query requests.
